@@ -482,10 +482,11 @@ type bScenario struct {
 	secs     []string
 	typed    bool
 	prePark2 bool // a second pre-parked waiter beyond
+	tailDel  bool // preset: the newest message is deleted again, so NextOffset-1 lies in a deleted tail
 }
 
 func (s bScenario) String() string {
-	return fmt.Sprintf("hold %s[%s bykey=%v]@%s + %v typed=%v second-waiter=%v", s.held, s.offCls, s.byKey, s.window, s.secs, s.typed, s.prePark2)
+	return fmt.Sprintf("hold %s[%s bykey=%v]@%s + %v typed=%v second-waiter=%v tail-deleted=%v", s.held, s.offCls, s.byKey, s.window, s.secs, s.typed, s.prePark2, s.tailDel)
 }
 
 var bSecondaries = []string{"publish-pass", "publish-empty", "publish-2", "waiter-at", "waiter-beyond", "waiter-below", "cancel", "close"}
@@ -508,7 +509,7 @@ func enumerateBScenarios(tier string, seed int64, scale float64) []bScenario {
 		for _, oc := range classes {
 			add := func(secs []string) {
 				k++
-				out = append(out, bScenario{held: x.held, window: x.window, offCls: oc, byKey: k%3 == 0, secs: secs, typed: k%2 == 0, prePark2: k%4 < 2})
+				out = append(out, bScenario{held: x.held, window: x.window, offCls: oc, byKey: k%3 == 0, secs: secs, typed: k%2 == 0, prePark2: k%4 < 2, tailDel: k%5 == 0})
 			}
 			add(nil)
 			for _, s := range bSecondaries {
@@ -559,6 +560,15 @@ func runBScenario(cfg *RunCfg, rep *Reporter, cov *Cov, idx int, sc bScenario) {
 		return
 	}
 	next := nx
+	if sc.tailDel {
+		// publish one more and delete it again: NextOffset stays, the tail is a hole
+		if nx2, err := br.presetPublish(1); err == nil {
+			o := &cOp{Client: 99, Kind: "delete", Offsets: []int64{nx2 - 1}}
+			execOp(l.Raw(), o)
+			br.preset = append(br.preset, o)
+			next = nx2
+		}
+	}
 	offOf := func(cls string) int64 {
 		switch cls {
 		case "below":
@@ -719,6 +729,25 @@ func runBScenario(cfg *RunCfg, rep *Reporter, cov *Cov, idx int, sc bScenario) {
 	}
 	closeReturned := closeOp != nil && closeOp.Done
 	ok := br.quiesce(replay, finalNext, closeReturned)
+	// epilogue: with everything quiet, a new call below NextOffset must return at once (a notifier
+	// left behind NextOffset by the calls above would park it)
+	if ok && closeOp == nil && finalNext > 0 {
+		ea := br.newActor("waiter")
+		ea.offCls = "epilogue-below"
+		ea.atNext = finalNext
+		br.startWaiter(ea, finalNext-1, 4, nil)
+		st := settle(ea, 20000)
+		cov.Add("evaluations", 1)
+		if parkedInWait(st) {
+			replay["goroutine"] = st
+			rep.Report(Violation{Property: "C18", Sig: "concmon|immediate:parked:after-quiescence", What: fmt.Sprintf("with NextOffset=%d and no call in progress, ConsumeBlocking(%d) parked instead of returning immediately", finalNext, finalNext-1), Replay: replay})
+			ea.cancelCall.Store(nowNS())
+			ea.cancelled.Store(true)
+			ea.cancel()
+			settle(ea, 20000)
+			ok = false
+		}
+	}
 	installHook(nil)
 	if ok {
 		ok = br.judge(replay, finalNext, closeOp)
@@ -954,19 +983,36 @@ func runBPerturb(cfg *RunCfg, rep *Reporter, cov *Cov, idx int) {
 // engine
 
 func runC18(cfg *RunCfg, rep *Reporter, cov *Cov, ev *Evidence) {
+	if cfg.Shards == 0 {
+		runSharded(cfg, rep, cov, 8)
+		ev.Coverage["race_detector_enabled"] = raceEnabled()
+		ev.Coverage["race_reports_raw"] = cov.Get("race.raw")
+		ev.Coverage["race_reports_without_klevdb_frame"] = cov.Get("race.harness")
+		ev.Coverage["race_reports_distinct"] = int64(cov.SetSize("race.distinct"))
+		ev.Coverage["shards"] = 8
+		fillC18Evidence(cov, ev)
+		return
+	}
 	scs := enumerateBScenarios(cfg.Tier, cfg.Seed, cfg.Scale)
 	for i, sc := range scs {
-		runBScenario(cfg, rep, cov, i, sc)
+		if mine(cfg, i) {
+			runBScenario(cfg, rep, cov, i, sc)
+		}
 	}
-	nh := 300
+	nh := 1200
 	if cfg.Tier == "thorough" {
-		nh = 15000
+		nh = 24000
 	}
 	nh = int(float64(nh) * cfg.Scale)
 	for i := 0; i < nh; i++ {
-		runBPerturb(cfg, rep, cov, i)
+		if mine(cfg, i) {
+			runBPerturb(cfg, rep, cov, i)
+		}
 	}
 	finishRace(cfg, rep, cov, ev, "C18")
+}
+
+func fillC18Evidence(cov *Cov, ev *Evidence) {
 	ev.Coverage["evaluations"] = cov.Get("evaluations")
 	ev.Coverage["distinct_nontrivial"] = int64(cov.SetSize("c18"))
 	ev.Coverage["distinct_examples"] = cov.SetMembers("c18", 14)
